@@ -439,5 +439,5 @@ def units(tier):
         Unit("floyd-random", check, strategy=lambda: floyd_cases(9), examples=(1500, 160000), shards=(8, 16)),
         Unit("navigation", check, strategy=nav_cases, examples=(1000, 96000), shards=(6, 16)),
         Unit("floyd-random-n<=28", check, strategy=lambda: floyd_cases(28), examples=(48, 800), shards=(12, 16)),
-        Unit("floyd-long-n<=320", check, strategy=long_cases, examples=(16, 96), shards=(16, 16)),
+        Unit("floyd-long-n<=320", check, strategy=long_cases, examples=(40, 200), shards=(8, 16)),
     ]
